@@ -38,8 +38,9 @@ META = dict(
                   "translate/realstring.py, translate/lexnum.py", "model of GMP string parsing in coq/Num/LitModel.v",
                   "python fractions.Fraction and a 30-line s-expression evaluator for the property-level judgement"],
     assumptions=["GMP behaves as its documented/source behaviour transcribed in LitModel.v (checked on every compared string)"],
-    rule="L: every string over {0-9 - . / x e} up to length 5 (quick; thorough adds length 6 over {0,1,2,7,8,9,-,.,/,x,e} and length 7 "
-         "over {0,1,8,-,.,/,x,e}) plus PRNG literals of 40-200 digits (decimals with leading/trailing zeros, fractions with and "
+    rule="L: every string over {0-9 - . / x e} up to length 4, every string of length 5 over {0,1,2,7,8,9,-,.,/,x,e} and of length 6 over "
+         "{0,1,8,-,.,/,x,e} (quick: 4.8*10^5 strings; thorough: full alphabet up to length 5, reduced alphabets at lengths 6 and 7: "
+         "4.7*10^6) plus PRNG literals of 40-200 digits (decimals with leading/trailing zeros, fractions with and "
          "without leading zeros, signs, damaged variants); non-trivial = the string contains a digit. T: token streams of all strings "
          "up to length 4 and of the long literals. Q: pairs of spellings of Int constants. P: boundary-aimed rationals. F: scripts "
          "(assert (= x <lit>)) (check-sat) (get-value (x)) in QF_LRA and QF_LIA for all strings over {0,1,5,9,-,.,/} up to length 3 "
@@ -232,17 +233,16 @@ def case_batches(ctx, rng, longs, size=600000):
             if l and not l.startswith("#"):
                 lines.append((l, "corpus"))
     lines.append(("L <empty>", "L:exhaustive"))
-    for n in range(1, 6):
+    for n in range(1, 5 if ctx.quick else 6):
         for t in itertools.product(FULL, repeat=n):
             lines.append(("L " + "".join(t), "L:exhaustive"))
             if len(lines) >= size:
                 yield flush()
-    if not ctx.quick:
-        for alpha, n in ((A11, 6), (A8, 7)):
-            for t in itertools.product(alpha, repeat=n):
-                lines.append(("L " + "".join(t), "L:exhaustive-reduced-digits"))
-                if len(lines) >= size:
-                    yield flush()
+    for alpha, n in (((A11, 5), (A8, 6)) if ctx.quick else ((A11, 6), (A8, 7))):
+        for t in itertools.product(alpha, repeat=n):
+            lines.append(("L " + "".join(t), "L:exhaustive-reduced-digits"))
+            if len(lines) >= size:
+                yield flush()
     for s in longs:
         lines.append(("L " + s, "L:long"))
     for n in range(1, 5):
@@ -282,7 +282,7 @@ def process(ctx, rng, exe, h, lines, samples, state):
     for ((line, kind), (sent, _), m, i) in zip(lines, send, lm, li):
         op, arg = line[0], line[2:]
         ctx.case(key=line, nontrivial=any(c.isdigit() for c in arg), kind=kind)
-        if kind not in samples and rng.random() < (0.0005 if kind.startswith("L:exh") or kind.startswith("T:exh") else 0.02):
+        if kind not in samples and rng.random() < (0.0005 if kind.startswith("L:exh") or kind.startswith("T:exh") else 0.02) and any(c.isdigit() for c in arg):
             samples[kind] = dict(case=line, model=m[:300], impl=i[:300])
         if sent != line:
             continue
@@ -351,7 +351,7 @@ def run(ctx):
 
     # ------------------------------------------------------------------ front end
     frontend(ctx, rng, exe, longs, samples)
-    order = ["L:exhaustive", "L:long", "T:exhaustive", "Q:int-const-spellings", "P:print", "F:QF_LRA", "F:QF_LIA", "T:long"]
+    order = ["L:exhaustive", "L:exhaustive-reduced-digits", "L:long", "T:exhaustive", "Q:int-const-spellings", "P:print", "F:QF_LRA", "F:QF_LIA", "T:long"]
     ctx.samples = [samples[k] for k in order if k in samples][:6]
 
 
